@@ -301,8 +301,9 @@ def run(pid, res):
         for m in todo:
             p_, src = _apply(root, m)
             if p_ is None:
+                # the anchored text is gone (typically: the mutant was anchored on code a later `fix:` commit rewrote): the
+                # mutant is skipped and listed, as in sa/selftest.py; too many stale mutants make the self-test void (below)
                 summary[m["id"]] = "stale"
-                bad.append((m["id"], "stale anchor"))
                 continue
             try:
                 code, out = scratch.run_check(pid, root)
@@ -326,6 +327,9 @@ def run(pid, res):
             else:
                 bad.append((m["id"], f"exit={code} new={sorted(new)[:4]} expected={m['expect']}"))
     res.extra["selftest"] = summary
+    nstale = sum(1 for v in summary.values() if v == "stale")
+    if nstale * 3 > len(todo):
+        bad.append(("self-test", f"{nstale} of {len(todo)} mutants are stale: the fixtures no longer match the tree"))
     if bad:
         raise AnalysisError("checker self-test failed: " + "; ".join(f"{a}: {b[:240]}" for a, b in bad))
 
